@@ -14,7 +14,11 @@ func init() {
 		r.OnlyProperty = "C29"
 		before := raceLogSize()
 		var what string
-		switch r.Tape.Weighted(3, 2, 3, 2, 4) {
+		pick := r.Tape.Weighted(3, 2, 3, 2, 4, 2)
+		if v := os.Getenv("VERIF_C29_SCENARIO"); v != "" {
+			pick = int(v[0] - '0') // diagnosis only
+		}
+		switch pick {
 		case 0:
 			what = "stream/outer join under a seeded schedule"
 			joinScenario(r, "C29")
@@ -30,6 +34,9 @@ func init() {
 		case 4:
 			what = "JSON x JSON join with regexp filters, LIMIT, faults and a stalling sink"
 			sharedStateScenario(r)
+		case 5:
+			what = "JSON LOOKUP JOIN JSON: the outer file's batches pile up while its consumer waits for the shared parser pool"
+			nestedPoolScenario(r)
 		}
 		if after := raceLogSize(); after > before {
 			report := raceLogTail(before)
@@ -162,7 +169,8 @@ func sharedStateScenario(r *Run) {
 	}
 	sql := "SELECT a.id, b.id FROM c29a.json a " + joinSQL + " c29b.json b ON a.g = b.g"
 	if joinSQL == "JOIN" {
-		sql += " WHERE a.s LIKE 'v%' AND b.s ~ '^v[0-9]+$' AND a.s ~* '^V'"
+		// every pattern operator on both sides: pushed below the join, both input goroutines use the shared pattern caches
+		sql += " WHERE a.s LIKE 'v%' AND b.s LIKE 'v%' AND a.s ~ '^v[0-9]+$' AND b.s ~ '^v[0-9]+$' AND a.s ~* '^V' AND b.s ~* '^V'"
 	}
 	if limit >= 0 {
 		sql += fmt.Sprintf(" LIMIT %d", limit)
@@ -265,5 +273,93 @@ func sharedStateScenario(r *Run) {
 	}
 	if !oc.Finished {
 		r.Violate("C29", "hang", attrs, "query did not finish within %d scheduling steps (%s)", oc.Steps, sql)
+	}
+}
+
+// nestedPoolScenario: A LOOKUP JOIN B with both sides JSON. The lookup runs B's source nested
+// inside A's consumer, and both share the one parser pool: while A's consumer waits for B's
+// lines to be parsed, the workers keep handing A's parsed batches over. The controller drives
+// A's reader and workers far ahead (many batches outstanding) before letting the lookups
+// proceed; a LIMIT ends the query after a few dozen lookups. Oracle: the query terminates.
+func nestedPoolScenario(r *Run) {
+	t := r.Tape
+	hdr := t.Block(8)
+	nA := []int{130, 700, 1500, 2300}[hdr.Weighted(2, 3, 3, 1)]
+	if !r.Thorough() && nA > 1500 {
+		nA = 1500
+	}
+	nB := 1 + hdr.Draw(3)
+	workers := 1 + hdr.Draw(4)
+	limit := 20 + hdr.Draw(60)
+	aheadPct := []int{95, 80, 50}[hdr.Draw(3)]
+	attrs := map[string]string{"scenario": "json_lookup_join"}
+	var sa, sb strings.Builder
+	for i := 0; i < nA; i++ {
+		sa.WriteString(fmt.Sprintf(`{"id":%d,"g":%d}`, i, i%3) + "\n")
+	}
+	for i := 0; i < nB; i++ {
+		sb.WriteString(fmt.Sprintf(`{"id":%d,"g":%d}`, i, i%3) + "\n")
+	}
+	if err := os.WriteFile("c29la.json", []byte(sa.String()), 0644); err != nil {
+		r.Infra("write: %v", err)
+		return
+	}
+	if err := os.WriteFile("c29lb.json", []byte(sb.String()), 0644); err != nil {
+		r.Infra("write: %v", err)
+		return
+	}
+	sql := fmt.Sprintf("SELECT a.id, b.id FROM c29la.json a LOOKUP JOIN c29lb.json b ON a.g = b.g LIMIT %d", limit)
+	r.Log("sql: %s", sql)
+	r.Log("a=%d rows b=%d rows workers=%d ahead=%d%%", nA, nB, workers, aheadPct)
+	r.Shape("lookup", nA, nB, workers, limit, aheadPct)
+	r.NonTrivial(true)
+	ctl := NewCtl()
+	disk := NewDisk(r, ctl)
+	installSim(ctl, disk, "json.worker.send", "json.reader.submit", "json.reader.done", "json.consumer.loop")
+	defer installSim(nil, nil)
+	// the lookup re-opens the joined file for every outer row: keep the read buffer (a knob) small
+	simConfig.Files.BufferSizeBytes = []int{4096, 65536, 512}[hdr.Draw(3)]
+	defer func() { simConfig.Files.BufferSizeBytes = 4096 * 1024 }()
+	planned, err := PlanSQL(bubbleCtx(), sql, map[string]*SimTable{}, hdr.Chance(1, 2))
+	if err != nil {
+		r.Infra("query did not plan: %v", err)
+		return
+	}
+	nOut := 0
+	produce := func(ctx execution.ProduceContext, rec execution.Record) error {
+		nOut++
+		return nil
+	}
+	var schedule []byte
+	choose := func(en []string) int {
+		// mostly let the outer file's reader and workers run ahead of the lookups
+		var ahead []int
+		for i, k := range en {
+			if strings.Contains(k, "c29la.json") && !strings.HasPrefix(k, "json.consumer.loop") {
+				ahead = append(ahead, i)
+			}
+		}
+		if len(ahead) > 0 && t.Draw(100) < aheadPct {
+			schedule = append(schedule, 'a')
+			return ahead[t.Draw(len(ahead))]
+		}
+		schedule = append(schedule, '.')
+		return t.Draw(len(en))
+	}
+	oc := RunGatedPool(r, planned.Node, workers, ctl, produce, func(execution.ProduceContext, execution.MetadataMessage) error { return nil }, choose, 400000)
+	r.Sched(string(schedule))
+	r.AddEvents(nOut)
+	r.Probe("early_stop_by_limit")
+	r.Log("run returned err=%v finished=%v deadlock=%v steps=%d outputs=%d", errString(oc.Err), oc.Finished, oc.Deadlock, oc.Steps, nOut)
+	if oc.Deadlock {
+		r.Violate("C29", "deadlock", attrs, "query neither finished nor has any parked hand-off left: the outer file's parsed batches and the nested lookup starve each other of the shared parser pool (%s, %d workers)", sql, workers)
+		return
+	}
+	if !oc.Finished {
+		r.Violate("C29", "hang", attrs, "query did not finish within %d scheduling steps (%s)", oc.Steps, sql)
+		return
+	}
+	if oc.Err != nil {
+		r.Violate("C29", "hang", attrs, "lookup join failed: %v", oc.Err)
 	}
 }
